@@ -75,6 +75,15 @@ CHECKS = {
                      'finding), only the descent is cut; the path-driven drivers select the declaration through get_element with the '
                      'defaulted schema path and report missing declarations. Correspondence of schema.find(path) with the governing '
                      'declaration is not decided.', note=NOTE),
+    'C06': dict(ref='DESIGN.md §2 C06', technique='sibling cross-check of the lazy and full parser loops, typestate of pruned subtrees over the CFG of the '
+                                                    'lazy iterators (edge-cut reachability within one iteration), must-pass-through in the drivers',
+                text='Partial: decides structural necessary conditions of lazy = full - the lazy parser loop keeps the namespace stack like '
+                     'the full one and binds the maps before it yields; a subtree is pruned only on its end event at the lazy depth, after '
+                     'everything of it was yielded, and only the maps of removed nodes are dropped; the drivers flush errors per chunk, '
+                     'validate the pruned root above the cut on counters that are merged back before the end-of-document reference check; '
+                     'every chunk gets its own namespace context; the live ancestor list is remembered by copy; one iteration at a time. '
+                     'Equality of verdicts, errors and data for every chunking of every document is not decided; lazy depth >= 2 is not '
+                     'claimed by the property itself.', note=NOTE),
     'C09': dict(ref='DESIGN.md §2 C09', technique='type-resolved call graph (mypy expression types + class-hierarchy analysis) with '
                                                     'observation-site detection, pickle/copy pairing of lock attributes, reaching definitions',
                 text='Partial: no function reachable from the on-demand builder enumerates, measures or copies a staged global map (so the '
@@ -92,8 +101,6 @@ CHECKS = {
                 note=NOTE + ' Additionally trusts the mypy type map; constructor edges of persistent classes are cut (fresh objects).'),
 }
 NOT_APPLICABLE = {
-    'C06': 'equivalence of lazy and eager traversals quantifies over runtime chunkings of runtime trees; no structural necessary '
-           'condition with detecting power beyond the lock pairing (C18) and max_depth independence (C20)',
     'C15': 'determinism (UPA/EDC) is a property of the automaton built from runtime particle graphs; neither missed ambiguities nor '
            'false alarms have a structural signature; the invocation clause is covered under C14',
     'C16': 'set semantics of hand-written case splits over namespace constraints can only be decided by evaluating them over the '
